@@ -13,7 +13,10 @@ Pre == Reg(A, "alice", "u1") \o Reg(B, "bob", "u2") \o Reg(C, "carol", "u3") \o 
 Attach == { St(A, "MODE", <<<<"#one">>, <<"+v", "bob">>>>), St(A, "MODE", <<<<"#one">>, <<"+h", "bob">>>>), St(B, "JOIN", <<<<"#two">>>>),
             St(B, "MODE", <<<<"bob">>, <<"+iw">>>>), St(B, "OPER", <<<<"god">>, <<"godpass">>>>), St(B, "AWAY", <<<<"zzz">>>>),
             St(A, "MODE", <<<<"#one">>, <<"+i">>>>), St(C, "JOIN", <<<<"#three">>>>), St(C, "INVITE", <<<<"bob">>, <<"#three">>>>) }
-Nicks == { St(B, "NICK", <<<<n>>>>) : n \in {"robert", "bob", "alice", "claimed", "bobby", "a.b", "#chan"} }
+N10 == "abcdefghij"
+N40 == N10 \o N10 \o N10 \o N10
+N201 == N40 \o N40 \o N40 \o N40 \o N40 \o "x"
+Nicks == { St(B, "NICK", <<<<n>>>>) : n \in {"robert", "bob", "alice", "claimed", "bobby", "a.b", "#chan", N201} }
          \cup { St(A, "NICK", <<<<"bob">>>>), St(C, "NICK", <<<<"bob">>>>), St(D, "USER", <<<<"u4">>, <<"R">>>>) }
 Probes == { St(A, "NAMES", <<<<"#one">>>>), St(A, "WHOIS", <<<<"robert">>>>), St(A, "WHOWAS", <<<<"bob">>>>), St(B, "WALLOPS", <<<<"w">>>>),
             St(B, "JOIN", <<<<"#three">>>>), St(A, "PRIVMSG", <<<<"robert">>, <<"hi">>>>), St(A, "PRIVMSG", <<<<"bob">>, <<"hi">>>>),
